@@ -160,7 +160,7 @@ def eval_path(ctx, case):
     if exc is not None and not isinstance(exc, ValueError):
         ctx.fail('path-unexpected-exception-type', case, detail)
         return
-    if exc is None:
+    if exc is None and cls != 'min>max':
         # whatever the class: a return value is a list/tuple of maxsegs entries, each a str or None
         ctx.clause('path-result-shape')
         lens = (0, minsegs) if maxsegs == 0 else ((minsegs,) if maxsegs is None else (maxsegs,))
@@ -365,6 +365,20 @@ def run(ctx):
             ctx.sample(case['kind'] + '/' + (case.get('cls') or ''), case)
             evaluate(ctx, case)
 
+    def own(case):          # a case this worker generated for itself
+        ctx.sample(case['kind'] + '/' + (case.get('cls') or ''), case)
+        evaluate(ctx, case)
+
+    def blocks(stream, total, size=512):
+        """(index, rng) for the blocks of the seeded stream that belong to this worker; every block has its
+        own generator so the union over the workers does not depend on their number."""
+        for b in range((total + size - 1) // size):
+            if not ctx.mine(b):
+                continue
+            rng = ctx.rng('%s/%d' % (stream, b))
+            for i in range(b * size, min(total, (b + 1) * size)):
+                yield i, rng
+
     def P(path, minsegs=1, maxsegs=None, rest=False, **kw):
         return dict(kind='path', path=path, minsegs=minsegs, maxsegs=maxsegs, rest=rest, **kw)
 
@@ -382,10 +396,24 @@ def run(ctx):
                 for rest in (False, True):
                     emit(P(path, minsegs, maxsegs, rest))
 
+    # minsegs > maxsegs outside the grid (the check itself, not the path tests, has to reject these:
+    # with minsegs 0 the empty path passes every other test)
+    for path in ['', '/', '/a', '/a/', '/a/b', 'a', '//']:
+        for minsegs, maxsegs in [(0, -1), (0, -2), (1, -1), (2, -1), (3, -2), (5, 2), (7, 6), (6, 1)]:
+            for rest in (False, True):
+                emit(P(path, minsegs, maxsegs, rest))
+
     # ---- complete enumeration of class sequences
     kmax = ctx.pick(3, 5)
 
+    gcount = 0
+
     def grid(segs):
+        # sharded per segment list (not per case) so that workers do not build each other's cases
+        nonlocal gcount
+        gcount += 1
+        if not ctx.mine(gcount):
+            return
         for lead in ('/', ''):
             if lead == '' and (not segs or segs[0] == ''):
                 continue
@@ -393,8 +421,8 @@ def run(ctx):
                 for minsegs in (1, 2, 3, 4):
                     for maxsegs in maxsegs_options(minsegs):
                         for rest in (False, True):
-                            emit(dict(kind='path', segs=segs, lead=lead, trail=trail, minsegs=minsegs,
-                                      maxsegs=maxsegs, rest=rest))
+                            own(dict(kind='path', segs=segs, lead=lead, trail=trail, minsegs=minsegs,
+                                     maxsegs=maxsegs, rest=rest))
 
     for k in range(0, kmax + 1):
         for classes in itertools.product(SEG_CLASSES, repeat=k):
@@ -410,9 +438,7 @@ def run(ctx):
                    'rest_with_last' % (kmax + 1)] = True
 
     # ---- seeded sampling with quotas per oracle class
-    rng = ctx.rng('paths')
-    n = ctx.pick(40000, 1600000)
-    for i in range(n):
+    for i, rng in blocks('paths', ctx.pick(40000, 1600000)):
         quota = i % 8
         minsegs = rng.randrange(1, 5)
         maxsegs = rng.choice(maxsegs_options(minsegs))
@@ -452,7 +478,7 @@ def run(ctx):
             classes = [rng.choice(SEG_CLASSES) for _ in range(k)]
             trail = rng.choice(['', '/'])
         segs = [seg_for(c, j, rng) for j, c in enumerate(classes)]
-        emit(dict(kind='path', segs=segs, lead=lead, trail=trail, minsegs=minsegs, maxsegs=maxsegs, rest=rest))
+        own(dict(kind='path', segs=segs, lead=lead, trail=trail, minsegs=minsegs, maxsegs=maxsegs, rest=rest))
 
     # ---- split_by_commas: literals
     for items in GOOD_LITERALS:
@@ -473,14 +499,12 @@ def run(ctx):
     ctx.exhaustive['split_by_commas: singles and pairs of items of length <= 2, triples of length <= 1, over '
                    '{comma, quote, backslash, space, a, n}'] = True
     # seeded lists
-    rng = ctx.rng('lists')
-    for i in range(ctx.pick(11000, 200000)):
-        emit(dict(kind='commas', items=[random_item(rng) for _ in range(1 + i % 5)]))
+    for i, rng in blocks('lists', ctx.pick(11000, 200000)):
+        own(dict(kind='commas', items=[random_item(rng) for _ in range(1 + i % 5)]))
     # damaged texts, equal quota per malformation type
-    rng = ctx.rng('damage')
-    for i in range(ctx.pick(3600, 54000)):
+    for i, rng in blocks('damage', ctx.pick(3600, 54000)):
         how = DAMAGE[i % len(DAMAGE)]
-        emit(dict(kind='commas-bad', text=damaged(rng, how), cls=how))
+        own(dict(kind='commas-bad', text=damaged(rng, how), cls=how))
 
 
 LEVEL_TEXT = ('Exploration with a reference model: every path is composed from a known segment list, so the clear '
@@ -490,6 +514,7 @@ LEVEL_TEXT = ('Exploration with a reference model: every path is composed from a
               'and must round-trip; damaged texts must raise ValueError.')
 LEVEL_NOTE = ('Trusted: vlib/models/splitters.py (reference splitter with both trailing-slash readings, quoting '
               'function, strict reader used as a self-check). DONT-CARE: maxsegs=0, empty segments beyond the first '
-              'minsegs (accept/reject), "" vs None behind a trailing slash, unquoted white space or backslashes, '
+              'minsegs (accept/reject), "" vs None behind a trailing slash, rest_with_last with maxsegs == minsegs '
+              'whose remainder starts with a slash (ValueError or exactly that remainder), unquoted white space or backslashes, '
               'escapes other than \\\\ and \\". Non-string paths and minsegs outside 1..4 are not generated.')
 TECHNIQUE = 'reference-model monitor over constructive generators; join/split round trip'
